@@ -19,6 +19,7 @@ from sa.symex import Interp, flat_guards
 from sa.rowids import Analyzer, Facts, U32, is_call, method, recv
 
 RULES = {
+    "R-C07-h": "operations write only the receiver's own storage: an operand's row-id arrays are never modified in place (they would leave that index's row range) - the frame analysis shared with C06 rule a and C17",
     "R-C07-g": "optional category parameters (a requested common value, a column) are tested with `is None`, never by truth value: shift_common(0) that silently keeps the old common leaves column_stack with entries listed under the common value (imported from C06 rule m)",
     "R-C07-a": "every stored row-id array is strictly increasing (sorted and unique)",
     "R-C07-b": "no empty array is stored (dominating non-emptiness guard, inherited entry, or set_if)",
@@ -652,6 +653,19 @@ def main(tier):
         k6 += 1
         rep.add("R-C07-g", o.where, "[%s] %s" % (o.rule, o.construct), o.status, o.detail, True, o.witness)
     rep.floor("R-C07-g", 3, k6)
+    # R-C07-h: an operation modifies only the receiver's own storage. Row ids written in place into an array that another
+    # index still holds (the operand of append / update, an index that shares arrays after column_stack(copy=False) ...)
+    # make THAT index ill-formed: its row ids leave its own row range. The frame analysis of C06 rule a / C17.
+    import c17
+    st17 = {"events": 0, "mods": 0, "diagnostic": {}, "exceptions": {}, "regions": 0, "shortcuts": 0}
+    k17 = 0
+    for name17, f17 in ii.methods.items():
+        if name17 == "__init__":
+            continue
+        c17.analyse_root(prog, f17, "mutator" if name17 in c06.MUTATORS else "pure", rep, st17, RA="R-C07-h", RB="R-C07-h", extra=False)
+        k17 += 1
+    c17.analyse_root(prog, prog.func("iindexes", "column_stack"), "pure", rep, st17, RA="R-C07-h", RB="R-C07-h", extra=False)
+    rep.floor("R-C07-h", 22, k17 + 1)
     rep.analysed["roots"] = [f.fq for f in roots]
     rep.analysed["store_sites"] = stats["sites"]
     rep.floor("R-C07-a", 30, stats["sites"])
